@@ -52,6 +52,11 @@ TRANSCRIBED = {
     ("tensordict/_lazy.py", "LazyStackedTensorDict._stack_onto_"): "C08Out: lazyStackOnto",
     ("tensordict/_torch_func.py", "_lazy_cat"): "C08Lazy: lazyCat; C08Out: lazyCatOut",
     ("tensordict/_torch_func.py", "_stack"): "C08Lazy: lazyStackOp (the branch over lazy operands)",
+    ("tensordict/_lazy.py", "LazyStackedTensorDict.update_at_"): "C08UpdateAt: lazyUpdateAt",
+    ("tensordict/_lazy.py", "LazyStackedTensorDict._view"): "C08View: lazyView (flatten branch: iterUnbindR / resUnbind)",
+    ("tensordict/_lazy.py", "LazyStackedTensorDict.flatten"): "C08View: lazyFlatten",
+    ("tensordict/utils.py", "_check_is_flatten"): "C08View: checkIsFlatten",
+    ("tensordict/utils.py", "_maybe_correct_neg_dim"): "C08View: lazyFlatten (dim normalisation)",
     ("tensordict/utils.py", "convert_ellipsis_to_idx"): "C08Index: convertEllipsis",
     ("tensordict/utils.py", "_getitem_batch_size"): "C08Lazy: getitemBatchSize",
 }
